@@ -274,6 +274,12 @@ func (x *Exec) appendOp(st *State, s, t Value, resT types.Type) Value {
 	// fresh array for the reallocating case
 	nb := x.Allocate(st)
 	ncap := c.Fresh("append.cap", IdxSort)
+	if x.Opt.AppendDouble {
+		// bounded lemmas: a reallocating append doubles the needed length (one concrete growth
+		// policy instead of an arbitrary capacity, which would fork every later append)
+		ncap = c.BVBin("bvadd", newLen, newLen)
+		x.Notes.Bounds["append growth fixed to cap = 2*len on reallocation (one concrete policy)"] = true
+	}
 	x.assume(st, c.And(c.BVCmp("bvsle", newLen, ncap), c.BVCmp("bvsle", ncap, c.BVU(1<<48, 64))))
 	x.assume(st, c.BVCmp("bvsle", newLen, c.BVU(1<<48, 64)))
 	for k, lf := range lay.Leaves {
@@ -580,10 +586,13 @@ func (x *Exec) applyContract(st *State, ct *Contract, callee *ssa.Function, args
 	if !ct.Pure && len(ct.Modifies) == 0 && false {
 		_ = c
 	}
-	// allocation may have happened
-	na := x.C.Fresh("alloc", IntSort)
-	x.assume(st, x.C.IntCmp(">=", na, st.Alloc))
-	st.Alloc = na
+	// allocation may have happened (a pure callee returns no reference to memory it allocated,
+	// so the watermark is kept and references stay syntactically comparable)
+	if !(ct.Pure && len(ct.Modifies) == 0 && !hasRefResult(resT)) {
+		na := x.C.Fresh("alloc", IntSort)
+		x.assume(st, x.C.IntCmp(">=", na, st.Alloc))
+		st.Alloc = na
+	}
 	var res Value
 	if resT != nil && len(ct.Ensures) == 0 && (ct.Function || ct.Pure && allScalar(args)) {
 		res = x.pureCallT(ct, args, resT)
@@ -1189,4 +1198,25 @@ func (x *Exec) copyGhost(from, to map[ssa.Value]Value) {
 			to[k] = v
 		}
 	}
+}
+
+// hasRefResult: the result type contains references (pointers, slices, maps, interfaces).
+func hasRefResult(t types.Type) bool {
+	if t == nil {
+		return false
+	}
+	if tup, ok := t.(*types.Tuple); ok {
+		for i := 0; i < tup.Len(); i++ {
+			if hasRefResult(tup.At(i).Type()) {
+				return true
+			}
+		}
+		return false
+	}
+	for _, lf := range LayoutOf(t).Leaves {
+		if lf.Role != "" {
+			return true
+		}
+	}
+	return false
 }
